@@ -34,6 +34,7 @@ type Clause struct {
 	Expr  SpecExpr
 	Name  string // for let
 	Params []string // for parametrised let (macro)
+	Macro  bool
 	Props []string
 	Line  int
 	Aux   bool
@@ -86,7 +87,7 @@ type SpecGo struct{ E ast.Expr }
 var clauseKeywords = map[string]bool{
 	"func": true, "props": true, "requires": true, "ensures": true, "assigns": true,
 	"loop": true, "let": true, "sweep": true, "decreases": true, "inline": true, "trusted": true,
-	"nosafety": true, "global": true, "opaque": true,
+	"nosafety": true, "global": true, "opaque": true, "define": true,
 }
 
 var labelRe = regexp.MustCompile(`^\[([A-Za-z0-9_.\-]+)\]\s*`)
@@ -113,6 +114,7 @@ type ContractSet struct {
 	byKey   map[string]*Contract // pkgpath + "::" + key
 	globals map[string][]*GlobalInv
 	sweeps  []*Sweep
+	defines map[string]map[string]*Clause // pkg -> macro name -> clause
 }
 
 func loadContracts(repo string, pkgDirs map[string]string) (*ContractSet, error) {
@@ -207,6 +209,38 @@ func (cs *ContractSet) addClause(pkg, file string, cur **Contract, line int, tex
 		}
 		cs.byKey[k] = c
 		*cur = c
+		return nil
+	}
+	if kw == "define" {
+		j := strings.Index(rest, "=")
+		k := strings.Index(rest, "(")
+		if j < 0 || k < 0 || k > j {
+			return errf("define name(params) = expr")
+		}
+		// the '=' that separates head and body is the first one after the closing paren
+		close := strings.Index(rest, ")")
+		j = close + strings.Index(rest[close:], "=")
+		head := strings.TrimSpace(rest[:j])
+		body := strings.TrimSpace(rest[j+1:])
+		cl := &Clause{Kind: "let", Macro: true, Line: line, Src: body}
+		cl.Name = strings.TrimSpace(head[:k])
+		for _, pn := range strings.Split(strings.TrimSuffix(strings.TrimSpace(head[k+1:]), ")"), ",") {
+			if strings.TrimSpace(pn) != "" {
+				cl.Params = append(cl.Params, strings.TrimSpace(pn))
+			}
+		}
+		e, err := parseSpec(body)
+		if err != nil {
+			return errf("%v in %q", err, body)
+		}
+		cl.Expr = e
+		if cs.defines == nil {
+			cs.defines = map[string]map[string]*Clause{}
+		}
+		if cs.defines[pkg] == nil {
+			cs.defines[pkg] = map[string]*Clause{}
+		}
+		cs.defines[pkg][cl.Name] = cl
 		return nil
 	}
 	if kw == "sweep" {
@@ -304,8 +338,11 @@ func (cs *ContractSet) addClause(pkg, file string, cur **Contract, line int, tex
 		if k := strings.Index(cl.Name, "("); k >= 0 {
 			ps := strings.TrimSuffix(strings.TrimSpace(cl.Name[k+1:]), ")")
 			for _, pn := range strings.Split(ps, ",") {
-				cl.Params = append(cl.Params, strings.TrimSpace(pn))
+				if strings.TrimSpace(pn) != "" {
+					cl.Params = append(cl.Params, strings.TrimSpace(pn))
+				}
 			}
+			cl.Macro = true
 			cl.Name = strings.TrimSpace(cl.Name[:k])
 		}
 	}
@@ -332,7 +369,7 @@ func (cs *ContractSet) addClause(pkg, file string, cur **Contract, line int, tex
 // then parses the pieces as Go expressions.  #name becomes ghost_name, @name
 // becomes loopvar_name.
 func parseSpec(s string) (SpecExpr, error) {
-	s = strings.TrimSpace(s)
+	s = strings.TrimSpace(rewriteNestedImplies(s))
 	if i := topLevelIndex(s, "<==>"); i >= 0 {
 		a, err := parseSpec(s[:i])
 		if err != nil {
@@ -436,4 +473,88 @@ func exprString(e ast.Expr) string {
 	ast.Inspect(e, func(n ast.Node) bool { return true })
 	b.WriteString(fmt.Sprintf("%v", e))
 	return b.String()
+}
+
+// rewriteNestedImplies turns A ==> B / A <==> B inside parentheses or call
+// arguments into implies(A, B) / iff(A, B); the top level is left alone.
+func rewriteNestedImplies(s string) string {
+	var b strings.Builder
+	i := 0
+	for i < len(s) {
+		c := s[i]
+		if c == '"' || c == '\'' || c == '`' {
+			j := i + 1
+			for j < len(s) && s[j] != c {
+				if s[j] == '\\' {
+					j++
+				}
+				j++
+			}
+			if j >= len(s) {
+				j = len(s) - 1
+			}
+			b.WriteString(s[i : j+1])
+			i = j + 1
+			continue
+		}
+		if c == '(' || c == '[' {
+			// find the matching close
+			depth := 0
+			j := i
+			for ; j < len(s); j++ {
+				if s[j] == '(' || s[j] == '[' || s[j] == '{' {
+					depth++
+				} else if s[j] == ')' || s[j] == ']' || s[j] == '}' {
+					depth--
+					if depth == 0 {
+						break
+					}
+				}
+			}
+			if j >= len(s) {
+				b.WriteString(s[i:])
+				break
+			}
+			inner := rewriteNestedImplies(s[i+1 : j])
+			// split at top-level commas
+			var parts []string
+			start := 0
+			d := 0
+			for k := 0; k < len(inner); k++ {
+				switch inner[k] {
+				case '(', '[', '{':
+					d++
+				case ')', ']', '}':
+					d--
+				case ',':
+					if d == 0 {
+						parts = append(parts, inner[start:k])
+						start = k + 1
+					}
+				}
+			}
+			parts = append(parts, inner[start:])
+			for k, p := range parts {
+				parts[k] = implToCall(p)
+			}
+			b.WriteByte(c)
+			b.WriteString(strings.Join(parts, ","))
+			b.WriteByte(s[j])
+			i = j + 1
+			continue
+		}
+		b.WriteByte(c)
+		i++
+	}
+	return b.String()
+}
+
+func implToCall(p string) string {
+	if i := topLevelIndex(p, "<==>"); i >= 0 {
+		return " iff(" + implToCall(p[:i]) + ", " + implToCall(p[i+4:]) + ")"
+	}
+	if i := topLevelIndex(p, "==>"); i >= 0 {
+		return " implies(" + implToCall(p[:i]) + ", " + implToCall(p[i+3:]) + ")"
+	}
+	return p
 }
